@@ -1343,3 +1343,12 @@ from pyvc.contract import bounded_only as _bo
 _bo("C16", F + "::ListOfDicts.full_join[every left and right item at least once, merged pairs have equal keys]",
     "nine-call composite with deep copies and counters: bounded run-time contract only, every tier")
 _bo("C16", F + "::ListOfDicts.full_join[renamed key]", "same, key named differently on the two sides")
+
+for _n, _why in (("rename[new=old pairs, also swaps and shifts]", "dict rebuilt through zip of renamed keys: outside the prover's reach"),
+                 ("__mul__", "repetition of a symbolic list"),
+                 ("unique[no keys: whole items]", "whole-item equality"),
+                 ("fill_missing_keys[key=value, None values are present values]", "several keys; None as a present value")):
+    _bo("C15", F + "::ListOfDicts." + _n, _why + "; bounded run-time contract, every tier")
+    _bo("C17", F + "::ListOfDicts." + _n, _why + "; bounded run-time contract, every tier")
+for _n in ("full_join[every left and right item at least once, merged pairs have equal keys]", "full_join[renamed key]"):
+    _bo("C17", F + "::ListOfDicts." + _n, "a join's right-hand argument is never changed (and is not marked obsolete): checked on the real code")
